@@ -277,6 +277,36 @@ func buildNg(c *sim.Ctx) *fb {
 	return f
 }
 
+// hugeSnaplen decompresses as much of a (possibly damaged) gzip stream as it
+// can and reports whether a declared snap length in it exceeds 1 MiB.
+func hugeSnaplen(what int, z []byte) bool {
+	zr, err := gzip.NewReader(bytes.NewReader(z))
+	if err != nil {
+		return false
+	}
+	d, _ := io.ReadAll(io.LimitReader(zr, 1<<20))
+	if what == 0 {
+		if len(d) < 20 {
+			return false
+		}
+		return binary.LittleEndian.Uint32(d[16:]) > 1<<20 && binary.BigEndian.Uint32(d[16:]) > 1<<20 || binary.LittleEndian.Uint32(d[16:]) > 1<<20 && d[0] != 0xA1 || binary.BigEndian.Uint32(d[16:]) > 1<<20 && d[0] == 0xA1
+	}
+	// pcapng: walk the blocks loosely in both byte orders
+	for _, o := range []binary.ByteOrder{binary.LittleEndian, binary.BigEndian} {
+		for off := 0; off+16 <= len(d); {
+			typ, l := o.Uint32(d[off:]), int(o.Uint32(d[off+4:]))
+			if typ == 1 && o.Uint32(d[off+12:]) > 1<<20 {
+				return true
+			}
+			if l < 12 || off+l > len(d) {
+				break
+			}
+			off += l
+		}
+	}
+	return false
+}
+
 // ---- running a reader over a stream ----
 
 type res struct {
@@ -495,8 +525,15 @@ func simC15(c *sim.Ctx) {
 		zw.Close()
 		data = zb.Bytes()
 		if c.Chance(300) && len(data) > 12 {
-			data[10+c.Draw(len(data)-10)] ^= byte(1 << c.Draw(8))
-			c.Fault("gzip_bit_flip")
+			at, bit := 10+c.Draw(len(data)-10), byte(1<<c.Draw(8))
+			data[at] ^= bit
+			if hugeSnaplen(what, data) {
+				// the flip turned a declared snap length into gigabytes, which
+				// licenses an allocation the harness cannot afford
+				data[at] ^= bit
+			} else {
+				c.Fault("gzip_bit_flip")
+			}
 		}
 		if c.Chance(200) {
 			data = data[:c.Draw(len(data)+1)]
